@@ -516,6 +516,9 @@ func (g *Gen) RacSearch(repo, verif, unit string, o *Obligation, sv *Solver, tie
 	testName := "TestRAC_" + sanitize(unit)
 	var src string
 	custom := filepath.Join(verif, "rac", "custom", sanitize(unit)+".go.txt")
+	if _, err := os.Stat(custom); err != nil {
+		custom = filepath.Join(verif, "rac", "custom", "pkg_"+pkg.Name()+".go.txt")
+	}
 	if data, err := os.ReadFile(custom); err == nil {
 		src = string(data)
 		rr.Bound = "custom harness " + custom
@@ -547,7 +550,7 @@ func (g *Gen) RacSearch(repo, verif, unit string, o *Obligation, sv *Solver, tie
 	if tier == "thorough" {
 		timeout = "600s"
 	}
-	args := []string{"test", "-overlay", ovFile, "-vet=off", "-count=1", "-timeout", timeout, "-run", "^" + testName + "$", "./" + relDir}
+	args := []string{"test", "-v", "-overlay", ovFile, "-vet=off", "-count=1", "-timeout", timeout, "-run", "^" + testName + "$", "./" + relDir}
 	rr.Cmd = "cd " + repo + " && GOFLAGS=-mod=mod GOPROXY=off go " + strings.Join(args, " ")
 	ctx, cancel := context.WithTimeout(context.Background(), 11*time.Minute)
 	defer cancel()
